@@ -190,7 +190,7 @@ PATHS = [('L_diagonal', 'Q_generic', 'C_arch'), ('C_sshape', 'C_loop'), ('Q_fold
 def check_path(word, acc, only=None):
     from mc.props.c09 import chain
     segs = chain(word)
-    p = Path(*segs)
+    p = AB.derive_path(Path(*segs))
     size = max(seg_size(s) for s in segs) * len(segs)
     tol = 1e-9 * size
     zs = []
@@ -300,7 +300,7 @@ def check_long(n, kinds, acc, only=None):
     radialrange (decided above), and against the exact extremes for n <= 9"""
     from mc import longpaths as LP
     segs = LP.zigzag(n, kinds, amp=1.0 + 0.1 * (n % 3), step=1.0)
-    p = Path(*segs)
+    p = AB.derive_path(Path(*segs))
     size = n * 1.0 + 2.0
     mid = segs[n // 2]
     zs = [complex(-5.0, 0.3), complex(n + 5.0, -0.4), complex(n / 2.0 + 0.21, 40.0), complex(n / 2.0 - 0.17, -35.0),
@@ -349,6 +349,7 @@ def shards(tier, seed):
     out += [{'what': 'path', 'word': list(w)} for w in PATHS]
     out.append({'what': 'special'})
     out += AB.provenance_shards(out, tier, lambda d: d['what'] == 'segment' and d['rot'] in (0, 37) and 'scale' not in d)
+    out += AB.provenance_shards(out, tier, lambda d: d['what'] == 'path' or (d['what'] == 'long' and d['n'] in (3, 33, 64)), key='pprov')
     from mc import longpaths as LP
     out += [{'what': 'long', 'n': n, 'kinds': k} for n in (LP.SIZES_QUICK if tier == 'quick' else LP.SIZES_THOROUGH)
             for k in (('L', 'LQC') if tier == 'quick' else ('L', 'Q', 'C', 'LQC', 'CL'))]
